@@ -27,6 +27,7 @@ THEOREMS = [
     "Mmtk.Immix.inv_init", "Mmtk.Immix.inv_step", "Mmtk.Immix.Reachable.inv",
     "Mmtk.Immix.live_lines_marked", "Mmtk.Immix.hole_avoids_live", "Mmtk.Immix.clean_block_avoids_live",
     "Mmtk.Immix.stale_cleared", "Mmtk.Immix.mark_state_range",
+    "Mmtk.Immix.hole_avoids_live_partial", "Mmtk.Immix.conc_nonmoving_allocator_not_reset_witness",
 ]
 LINES, MAXS, LINE_LOG, BLOCK_LOG = 128, 127, 8, 15   # overwritten from hx_consts in main()
 
@@ -139,6 +140,8 @@ class ImmixUnit(U.UnitSpec):
         bad = []
         if out.startswith("bad-op") or len(t) < 2:
             return bad
+        if out.startswith("panic") or out.startswith("crash"):
+            return [(f"{t[1]}:panic", f"`{case.ops[0][:80]}` -> {out[:120]} (the real function panicked on a well-formed input)")]
         op = t[1]
         try:
             if op == "bstate":
